@@ -268,7 +268,7 @@ class SInt:
     __int__ = __index__
 
     def __hash__(s):
-        if s.lo is None or s.hi is None or s.hi - s.lo > 4096:
+        if s.lo is None or s.hi is None or s.hi - s.lo > 16:
             raise Unsupported("hash() of a symbolic int with a large domain (dict/set keyed by a symbolic value)")
         return hash(CUR.concretize(s.t))
 
